@@ -212,14 +212,18 @@ def compute_attractor_candidates(
         graph_reduced, node_nfvs, child_motifs_reduced
     )
 
+    # The solver always reports at least one solution, so a limit below one cannot
+    # be distinguished from a limit of one.
+    candidates_limit = max(1, sd.config["attractor_candidates_limit"])
+
     if not greedy_asp_minification:
         candidate_states = compute_fixed_point_reduced_STG(
             pn_reduced,
             retained_set,
             avoid_subspaces=child_motifs_reduced,
-            solution_limit=sd.config["attractor_candidates_limit"],
+            solution_limit=candidates_limit,
         )
-        if len(candidate_states) == sd.config["attractor_candidates_limit"]:
+        if len(candidate_states) >= candidates_limit:
             raise RuntimeError(
                 f"Exceeded the maximum amount of attractor candidates ({sd.config['attractor_candidates_limit']}; see `SuccessionDiagramConfiguation.attractor_candidates_limit`)."
             )
@@ -271,7 +275,7 @@ def compute_attractor_candidates(
                     pn_reduced,
                     retained_set,
                     avoid_subspaces=child_motifs_reduced,
-                    solution_limit=sd.config["attractor_candidates_limit"],
+                    solution_limit=candidates_limit,
                 )
 
                 if len(candidate_states_zero) <= len(candidate_states):
@@ -291,10 +295,8 @@ def compute_attractor_candidates(
                 )
 
                 if (
-                    len(candidate_states_zero)
-                    == sd.config["attractor_candidates_limit"]
-                    and len(candidate_states_one)
-                    == sd.config["attractor_candidates_limit"]
+                    len(candidate_states_zero) >= candidates_limit
+                    and len(candidate_states_one) >= candidates_limit
                 ):
                     raise RuntimeError(
                         f"Exceeded the maximum amount of attractor candidates ({sd.config['attractor_candidates_limit']}; see `SuccessionDiagramConfiguation.attractor_candidates_limit`)."
